@@ -165,6 +165,11 @@ type versionSpec struct {
 	Text B `json:"text"`
 	// Last: Version is called after the root's other declarations instead of before them
 	Last bool `json:"last"`
+	// Again: Version is called a second time, right after the first call, with these arguments
+	Again *struct {
+		Name B `json:"name"`
+		Text B `json:"text"`
+	} `json:"again"`
 }
 
 type matcherSpec struct {
@@ -1082,10 +1087,16 @@ func runCase(req *request, stderr *bytes.Buffer) *runOut {
 			app.ErrorHandling = flag.ErrorHandling(*root.Policy)
 		}
 		if req.Version != nil {
-			if req.Version.Last {
-				r.afterRootDecls = func() { app.Version(string(req.Version.Name), string(req.Version.Text)) }
-			} else {
+			declareVersion := func() {
 				app.Version(string(req.Version.Name), string(req.Version.Text))
+				if req.Version.Again != nil {
+					app.Version(string(req.Version.Again.Name), string(req.Version.Again.Text))
+				}
+			}
+			if req.Version.Last {
+				r.afterRootDecls = declareVersion
+			} else {
+				declareVersion()
 			}
 		}
 		r.hasBefore = req.Before != nil
